@@ -6,9 +6,11 @@ from common import *
 from vloop import VLoop
 
 
-def run_virtual(script, retries, timeout, payload=b"REQUEST-\x00\xff", reply_tail=b""):
+def run_virtual(script, retries, timeout, payload=b"REQUEST-\x00\xff", reply_tail=b"", v6=False):
     from puresnmp.transport import send_udp, Endpoint
     loop = VLoop()
+    peer = "2001:db8::1" if v6 else "192.0.2.1"
+    loop.peer_addr = (peer, 161, 0, 0) if v6 else (peer, 161)      # what asyncio reports as the source of a datagram (IPv6: a 4-tuple)
     loop.scripts = list(script)
     loop.TIMEOUT = timeout
     loop.reply_tail = reply_tail
@@ -16,7 +18,7 @@ def run_virtual(script, retries, timeout, payload=b"REQUEST-\x00\xff", reply_tai
 
     async def main():
         try:
-            r = await send_udp(Endpoint(ip_address("192.0.2.1"), 161), payload, timeout=timeout, retries=retries)
+            r = await send_udp(Endpoint(ip_address(peer), 161), payload, timeout=timeout, retries=retries)
             loop.log(e="ret", kind="result", data=list(r), cls="")
         except BaseException as e:  # noqa
             loop.log(e="ret", kind="exc", data=[], cls=exc_name(e))
@@ -28,7 +30,7 @@ def run_virtual(script, retries, timeout, payload=b"REQUEST-\x00\xff", reply_tai
     finally:
         loop.close()
         asyncio.set_event_loop(None)
-    return dict(scenario=dict(script=list(script), retries=retries, timeout=timeout * 1000, payload=list(payload), mode="virtual"),
+    return dict(scenario=dict(script=list(script), retries=retries, timeout=timeout * 1000, payload=list(payload), mode="virtual", v6=v6),
                 events=loop.events + ([dict(t=0, e="loop_error", msg=m[:80]) for m in loop.errors])[:0])
 
 
@@ -36,7 +38,7 @@ def nfd():
     return len(os.listdir("/proc/self/fd"))
 
 
-def run_loopback(script, retries, timeout=0.05):
+def run_loopback(script, retries, timeout=0.05, v6=False):
     """real sockets: a scripted responder on 127.0.0.1; icmp = a closed port.  Records sent datagrams seen by the responder,
     elapsed time (lower bound only), the result, and the file-descriptor balance after control is back in the loop."""
     from puresnmp.transport import send_udp, Endpoint
@@ -44,8 +46,9 @@ def run_loopback(script, retries, timeout=0.05):
 
     async def main():
         loop = asyncio.get_running_loop()
-        srv = socket.socket(socket.AF_INET, socket.SOCK_DGRAM)
-        srv.bind(("127.0.0.1", 0))
+        host = "::1" if v6 else "127.0.0.1"
+        srv = socket.socket(socket.AF_INET6 if v6 else socket.AF_INET, socket.SOCK_DGRAM)
+        srv.bind((host, 0))
         srv.setblocking(False)
         port = srv.getsockname()[1]
         if script and all(s == "icmp" for s in script):
@@ -72,7 +75,7 @@ def run_loopback(script, retries, timeout=0.05):
         base = nfd()
         t0 = time.monotonic()
         try:
-            r = await send_udp(Endpoint(ip_address("127.0.0.1"), port), b"REQUEST", timeout=timeout, retries=retries)
+            r = await send_udp(Endpoint(ip_address(host), port), b"REQUEST", timeout=timeout, retries=retries)
             ret = dict(kind="result", data=list(r), cls="")
         except BaseException as e:  # noqa
             ret = dict(kind="exc", data=[], cls=exc_name(e))
@@ -84,7 +87,7 @@ def run_loopback(script, retries, timeout=0.05):
             srv.close()
         return ret, elapsed, leaked
     ret, elapsed, leaked = asyncio.run(main())
-    return dict(scenario=dict(script=list(script), retries=retries, timeout=int(timeout * 1000), mode="loopback"),
+    return dict(scenario=dict(script=list(script), retries=retries, timeout=int(timeout * 1000), mode="loopback", v6=v6),
                 events=[dict(t=0, e="loopback", ret=ret, elapsed_ms=int(elapsed * 1000), leaked_fds=leaked, seen=[list(d) for d in seen])])
 
 
